@@ -128,23 +128,29 @@ def generate(r):
             main.append(["recv", ch])
     join = r.random() < 0.85
     variants = [r.choice(["fn", "lambda", "method", "capture"]) for _ in scripts]
-    return {"caps": caps, "scripts": scripts, "main": main, "join": join, "variants": variants}
+    # in half of the networks the values are heap objects (strings built at run time) that are reachable only
+    # through the channel buffer or the parked sender while in flight
+    return {"caps": caps, "scripts": scripts, "main": main, "join": join, "variants": variants, "heap": r.random() < 0.5}
 
 
 # ---------- renderer ----------------------------------------------------------------------------
 
-def render_ops(ops, fid):
+def render_ops(ops, fid, heap=False):
     out = []
     for op in ops:
+        if heap and op[0] in ("send", "send_closed", "gsend"):
+            op = [op[0], op[1], "'v${%d}'" % op[2], op[2]]
+        elif op[0] in ("send", "send_closed", "gsend"):
+            op = [op[0], op[1], "%d" % op[2], op[2]]
         if op[0] == "send":
-            out.append("c%d <- %d; print('S', %d, %d, %d, c%d.len());" % (op[1], op[2], fid, op[1], op[2], op[1]))
+            out.append("c%d <- %s; print('S', %d, %d, %d, c%d.len());" % (op[1], op[2], fid, op[1], op[3], op[1]))
         elif op[0] == "recv":
             out.append("print('R', %d, %d, <- c%d, c%d.len());" % (fid, op[1], op[1], op[1]))
         elif op[0] == "close":
             out.append("c%d.close(); print('X', %d, %d);" % (op[1], fid, op[1]))
         elif op[0] in ("send_closed", "gsend"):
-            out.append("try { c%d <- %d; print('S', %d, %d, %d, c%d.len()); } catch e: Error { print('E', %d, %d, %d); }" % (
-                op[1], op[2], fid, op[1], op[2], op[1], fid, op[1], op[2]))
+            out.append("try { c%d <- %s; print('S', %d, %d, %d, c%d.len()); } catch e: Error { print('E', %d, %d, %d); }" % (
+                op[1], op[2], fid, op[1], op[3], op[1], fid, op[1], op[3]))
         elif op[0] == "drain":
             out.append("if true { let v = <- c%d; while v != nil { print('R', %d, %d, v, c%d.len()); v = <- c%d; } print('N', %d, %d); }" % (
                 op[1], fid, op[1], op[1], op[1], fid, op[1]))
@@ -165,7 +171,7 @@ def render(ir):
     for f, ops in enumerate(scripts):
         variant = ir["variants"][f] if f < len(ir["variants"]) else "fn"
         fid = f + 1
-        body = ["  " + text for text in render_ops(ops, fid)] + ["  print('D', %d, tag); done <- %d;" % (fid, fid)]
+        body = ["  " + text for text in render_ops(ops, fid, ir.get("heap"))] + ["  print('D', %d, tag); done <- %d;" % (fid, fid)]
         if variant == "fn":
             lines.append("fn fib%d(%s, done, tag) {" % (f, params))
             lines += body
@@ -188,7 +194,7 @@ def render(ir):
             lines.append("} }")
             launches.append("launch mk%d(%s, done, %d)();" % (f, params, tag_of(fid)))
     lines += launches
-    lines += render_ops(main, 0)
+    lines += render_ops(main, 0, ir.get("heap"))
     if join:
         lines.append("for i in %d.times() { print('J', <- done); }" % nf)
     lines.append("print('END', %s);" % ", ".join("c%d.len()" % i for i in range(len(caps))))
@@ -374,7 +380,7 @@ def check_history(stdout, ir, outcome):
                     if ch not in closed_at:
                         problems.append(("receive yielded nil on an open channel", "record %d: %s" % (idx, " ".join(p))))
                     continue
-                v = int(p[3])
+                v = int(p[3][1:]) if (ir.get("heap") and p[3].startswith("v")) else int(p[3])
                 if v not in sent:
                     problems.append(("a value was received that was never sent", "value %d in record %d" % (v, idx)))
                     continue
